@@ -630,7 +630,7 @@ mod n {
                     continue;
                 }
             }
-            // rewrite 6: solar protections on every window (written right before the `..` of the block, where they
+            // rewrite 6: solar protections on every window, each smaller than 1 m2 (written right before the `..` of the block, where they
             // override earlier values of the same key)
             if rewrite == 6 {
                 let t = body.trim();
@@ -640,10 +640,10 @@ mod n {
                     n_windows += 1;
                     let k = n_windows % 4;
                     if k != 1 {
-                        out.push_str(&format!("{}OVERHANG-A = 0.25{}{}OVERHANG-B = 0.5{}{}OVERHANG-D = 0.75{}{}OVERHANG-W = 2.5{}{}OVERHANG-ANGLE = 15{}", indent, eol, indent, eol, indent, eol, indent, eol, indent, eol));
+                        out.push_str(&format!("{}OVERHANG-A = 0.25{}{}OVERHANG-B = 0.5{}{}OVERHANG-D = 0.75{}{}OVERHANG-W = 1.25{}{}OVERHANG-ANGLE = 15{}", indent, eol, indent, eol, indent, eol, indent, eol, indent, eol));
                     }
                     if k != 2 {
-                        out.push_str(&format!("{}LEFT-FIN-A = 0.125{}{}LEFT-FIN-B = 0.375{}{}LEFT-FIN-D = 0.625{}{}LEFT-FIN-H = 1.75{}", indent, eol, indent, eol, indent, eol, indent, eol));
+                        out.push_str(&format!("{}LEFT-FIN-A = 0.125{}{}LEFT-FIN-B = 0.375{}{}LEFT-FIN-D = 0.5{}{}LEFT-FIN-H = 1.75{}", indent, eol, indent, eol, indent, eol, indent, eol));
                     }
                     if k != 3 {
                         out.push_str(&format!("{}RIGHT-FIN-A = 0.0625{}{}RIGHT-FIN-B = 0.1875{}{}RIGHT-FIN-D = 0.3125{}{}RIGHT-FIN-H = 1.5{}", indent, eol, indent, eol, indent, eol, indent, eol));
@@ -767,6 +767,18 @@ mod n {
                             let written = st(b, "THICKNESS").and_then(|t| extract_f32vec(t).ok()).unwrap_or_default();
                             let thick_ok = written.len() == w.thickness.len() && w.material.iter().zip(written.iter().zip(w.thickness.iter())).all(|(m, (a, t))| m.starts_with("Cámara de aire ") || a == t);
                             c.check("C18.typed.layers", st(b, "MATERIAL").map(|t| extract_namesvec(t)) == Some(w.material.clone()) && thick_ok, || format!("{}: layers {} = {:?} {:?} but the block says {:?}", name, b.name, w.material, w.thickness, b.attrs.0));
+                            // a layer set writes no absorptance of its own: the documented default
+                            c.check("C18.typed.layers.absorptance", (w.absorptance - 0.6).abs() < 1e-6, || format!("{}: layers {} have absorptance {} (nothing written: 0.6)", name, b.name, w.absorptance));
+                        }
+                    }
+                    Construction => {
+                        // a construction under a name of its own is its layer set with the written absorptance (0.6 when none is written)
+                        if let Some(layers) = st(b, "LAYERS") {
+                            if layers != b.name {
+                                let want = f(b, "ABSORPTANCE").unwrap_or(0.6);
+                                let ok = matches!((data.db.wallcons.get(&b.name), data.db.wallcons.get(&layers)), (Some(w), Some(l)) if (w.absorptance - want).abs() < 1e-6 && w.material == l.material && w.thickness == l.thickness);
+                                c.check("C18.typed.construction", ok, || format!("{}: construction {} over layers {}: {:?}, written absorptance {:?}", name, b.name, layers, data.db.wallcons.get(&b.name).map(|w| (w.absorptance, w.material.len())), f(b, "ABSORPTANCE")));
+                            }
                         }
                     }
                     GlassType => {
@@ -1052,6 +1064,27 @@ mod n {
                         c.check("C18.results.tbl.element", matches!(e, Some(e) if e.area == num(v[0]) && e.u == num(v[1]) && e.w_or_inf == num(v[2]) && e.g_winter == num(v[3]) && e.g_summer == num(v[4]) && e.ang_north == num(v[5]) && e.tilt == num(v[6]) && e.id_surf == v[8].parse::<i32>().unwrap_or(i32::MIN) && e.id_space == v[9].parse::<i32>().unwrap_or(i32::MIN)), || format!("{}: element {} {:?} read as {:?}", name, ename, v, e));
                     }
                 }
+                // ... and the space lines that follow the elements: name, then code / multiplier / area / internal sources
+                let n_sp = counts.get(1).copied().unwrap_or(0);
+                let mut seen_spaces = std::collections::BTreeSet::new();
+                for i in 0..n_sp {
+                    let (nl, vl) = (lines.get(3 + 2 * n_el + 2 * i), lines.get(4 + 2 * n_el + 2 * i));
+                    if let (Some(nl), Some(vl)) = (nl, vl) {
+                        let sname = nl.trim().trim_matches('"').trim();
+                        let v: Vec<&str> = vl.split_whitespace().collect();
+                        if v.len() != 4 {
+                            continue;
+                        }
+                        seen_spaces.insert(sname.to_string());
+                        let last = (0..n_sp).filter(|j| lines.get(3 + 2 * n_el + 2 * j).map(|l| l.trim().trim_matches('"').trim() == sname).unwrap_or(false)).max() == Some(i);
+                        if !last {
+                            continue;
+                        }
+                        let sp = d.spaces.get(sname);
+                        c.check("C18.results.tbl.space", matches!(sp, Some(sp) if sp.id_space == v[0].parse::<i32>().unwrap_or(i32::MIN) && sp.mult == v[1].parse::<i32>().unwrap_or(i32::MIN) && sp.area == num(v[2]) && sp.qint == num(v[3])), || format!("{}: space {} {:?} read as {:?}", name, sname, v, sp));
+                    }
+                }
+                c.check("C18.results.tbl.spaces_all_read", d.spaces.len() == seen_spaces.len(), || format!("{}: {} space lines written, {} spaces read", name, seen_spaces.len(), d.spaces.len()));
                 c.nontrivial(name.clone());
                 c.sample(|| format!("{}: {} elements, {} spaces", name, d.elements.len(), d.spaces.len()));
             }
